@@ -1,1 +1,111 @@
-// verification hook for h263/src/parser/macroblock.rs (compiled only under cfg(kani) or cfg(ruffle_rs_h263_rs_verif))
+// Hook module of h263/src/parser/macroblock.rs.  Properties: C12 (MVD table == Table 14, f32 -> half-sample units exact).
+#![allow(dead_code, unused_imports)]
+use super::*;
+
+include!("/verif/hooks/common.rs");
+include!("/verif/spec/h263_tables.rs");
+
+// walk a VLC table along a code word given as a string of '0'/'1' (the semantics `read_vlc` is proved against in C14)
+fn walk<T: Clone>(table: &[Entry<T>], code: &str) -> Option<(T, usize)> {
+    let b = code.as_bytes();
+    let mut idx = 0usize;
+    let mut used = 0usize;
+    let mut steps = 0;
+    while steps < 40 {
+        match table.get(idx) {
+            Some(Entry::End(t)) => return Some((t.clone(), used)),
+            Some(Entry::Fork(z, o)) => {
+                if used >= b.len() {
+                    return None;
+                }
+                idx = if b[used] == b'0' { *z } else { *o };
+                used += 1;
+            }
+            None => return None,
+        }
+        steps += 1;
+    }
+    None
+}
+
+// all 64 code words of Table 14: the walk ends exactly at the end of the code word on Some(v) with 2*v == the
+// half-sample value of the table, and HalfPel::from(v) is that value; the table holds no other value leaves.
+fn h_mvd_table<S: Src>(s: &mut S) {
+    let mut ok_val = true;
+    let mut ok_len = true;
+    let mut m = 0usize;
+    while m <= 31 {
+        if m == 0 {
+            match walk(&MVD_TABLE[..], h263_spec::MVD_ZERO) {
+                Some((Some(v), used)) => {
+                    ok_val &= HalfPel::from(v) == HalfPel::from_unit(0);
+                    ok_len &= used == 1;
+                }
+                _ => ok_val = false,
+            }
+        } else {
+            let mut sign = 0;
+            while sign < 2 {
+                let mut code = String::from(h263_spec::MVD_PREFIX[m]);
+                code.push(if sign == 0 { '0' } else { '1' });
+                let want = if sign == 0 { m as i16 } else { -(m as i16) };
+                match walk(&MVD_TABLE[..], &code) {
+                    Some((Some(v), used)) => {
+                        ok_val &= HalfPel::from(v) == HalfPel::from_unit(want) && v * 2.0 == want as f32;
+                        ok_len &= used == code.len();
+                    }
+                    _ => ok_val = false,
+                }
+                sign += 1;
+            }
+        }
+        m += 1;
+    }
+    match walk(&MVD_TABLE[..], h263_spec::MVD_MINUS16) {
+        Some((Some(v), used)) => {
+            ok_val &= HalfPel::from(v) == HalfPel::from_unit(-32) && v == -16.0;
+            ok_len &= used == h263_spec::MVD_MINUS16.len();
+        }
+        _ => ok_val = false,
+    }
+    let mut leaves = 0;
+    let mut i = 0;
+    while i < MVD_TABLE.len() {
+        if let Entry::End(Some(_)) = MVD_TABLE[i] {
+            leaves += 1;
+        }
+        i += 1;
+    }
+    chk!(s, ok_val, "macroblock.MVD_TABLE.table14_values: every code word of Table 14 decodes to its vector difference, exactly representable in half-sample units");
+    chk!(s, ok_len, "macroblock.MVD_TABLE.table14_lengths: every code word is consumed exactly");
+    chk!(s, leaves == 64, "macroblock.MVD_TABLE.table14_complete: exactly 64 value leaves");
+    s.reach();
+}
+
+#[cfg(kani)]
+mod proofs {
+    use super::*;
+    #[kani::proof]
+    #[kani::unwind(140)]
+    fn mvd_table() {
+        h_mvd_table(&mut KSrc)
+    }
+}
+
+#[cfg(all(test, not(kani)))]
+mod replay {
+    use super::*;
+    #[test]
+    fn verif_replay() {
+        let name = std::env::var("VERIF_HARNESS").unwrap_or_default();
+        let mut r = RSrc::from_env();
+        match name.as_str() {
+            "mvd_table" => h_mvd_table(&mut r),
+            _ => {
+                println!("REPLAY-UNKNOWN harness={}", name);
+                return;
+            }
+        }
+        r.report(&name);
+    }
+}
